@@ -681,6 +681,85 @@ def part_inside_metamodule(res, rng, n):
             prev = got
 
 
+def part_chains(res, rng, n):
+    """Bundles that drive bundles: a link of the outer MultiCtl goes to the `value` of an inner MultiCtl (which has targets,
+    windows and orientations of its own), at ANY position among the outer bundle's links.  Every plain target of the outer
+    bundle still receives values in its range, monotone in the outer input; so does every target of the inner bundle with
+    respect to what the inner bundle was sent."""
+    import rv.api as api
+    from rv.modules import MODULE_CLASSES
+    from rv.modules.multictl import MultiCtl
+    sp = spec.load()
+    ranged = [r for r in _ranged_targets() if r[2] in ("range", "no_offset") and r[0] not in ("MetaModule", "MultiCtl")]
+    for k in range(n):
+        p = workload.new_project()
+        n_outer = rng.randint(2, 5)
+        pos_inner = rng.randrange(n_outer - 1) if rng.random() < 0.8 else n_outer - 1      # mostly NOT the last link
+        inner_targets = []
+        for _ in range(rng.randint(1, 4)):
+            T, cname, ckind, lo, hi = rng.choice(ranged)
+            inner_targets.append((p.new_module(MODULE_CLASSES[sp[T].mtype]), T, cname, lo, hi, rng.random() < 0.5))
+        inner = p.new_module(MultiCtl, mappings=[((32768, 0) if rev else (0, 32768)) + (type(m).controllers[cn].number, 0, 0, 0, 0, 0) for m, _T, cn, _lo, _hi, rev in inner_targets])
+        inner >> [t_[0] for t_ in inner_targets]
+        outer_targets, mappings, dests = [], [], []
+        for i in range(n_outer):
+            if i == pos_inner:
+                mappings.append((0, 32768, MultiCtl.controllers["value"].number, 0, 0, 0, 0, 0))
+                dests.append(inner)
+                outer_targets.append(None)
+            else:
+                T, cname, ckind, lo, hi = rng.choice(ranged)
+                m = p.new_module(MODULE_CLASSES[sp[T].mtype])
+                rev = rng.random() < 0.4
+                mappings.append(((32768, 0) if rev else (0, 32768)) + (type(m).controllers[cname].number, 0, 0, 0, 0, 0))
+                dests.append(m)
+                outer_targets.append((m, T, cname, lo, hi, rev))
+        outer = p.new_module(MultiCtl, mappings=mappings)
+        outer >> dests
+        case = {"part": "chains", "outer_links": ["inner MultiCtl.value" if t_ is None else f"{t_[1]}.{t_[2]}{' (reversed)' if t_[5] else ''}" for t_ in outer_targets],
+                "inner_links": [f"{t_[1]}.{t_[2]}{' (reversed)' if t_[5] else ''}" for t_ in inner_targets]}
+        res.case(("chains", k, pos_inner, n_outer))
+        res.count("chained_bundles")
+        prev_o, prev_i, bad = [None] * n_outer, [None] * len(inner_targets), False
+        for v in list(range(0, 32769, 331)) + [32768]:
+            res.evaluations += 1
+            try:
+                outer.value = v
+            except Exception as e:
+                res.violation(f"C20:delivery-raises:{type(e).__name__}:chain", f"value={v}: {e!r} ({case})", dict(case, input=v))
+                break
+            for which, targets, prevs in (("outer", outer_targets, prev_o), ("inner", inner_targets, prev_i)):
+                for i, t_ in enumerate(targets):
+                    if t_ is None:
+                        continue
+                    m, T, cname, lo, hi, rev = t_
+                    got = _val(getattr(m, cname))
+                    if got < lo or got > hi:
+                        res.violation("C20:out-of-range:range:chain", f"value={v}: {which} target {T}.{cname} holds {got} outside [{lo},{hi}] ({case})", dict(case, input=v))
+                        bad = True
+                    elif prevs[i] is not None and ((not rev and got < prevs[i]) or (rev and got > prevs[i])):
+                        res.violation(f"C20:not-monotone:range:{'reversed' if rev else 'normal'}:chain", f"value={v}: {which} target {T}.{cname} received {got} after {prevs[i]} ({case})", dict(case, input=v))
+                        bad = True
+                    prevs[i] = got
+                    if bad:
+                        break
+                if bad:
+                    break
+            if bad:
+                break
+        if not bad and v == 32768:
+            # every plain outer link was actually served (a full window reaches both ends, see part_histories)
+            for i, t_ in enumerate(outer_targets):
+                if t_ is None:
+                    continue
+                m, T, cname, lo, hi, rev = t_
+                want = lo if rev else hi
+                got = _val(getattr(m, cname))
+                if abs(got - want) > max(1, (hi - lo) // 500):
+                    res.violation("C20:not-delivered:chain", f"after the sweep outer link {i} ({T}.{cname}) holds {got}, expected {want} ({case})", dict(case, target=i))
+                    break
+
+
 def part_wide_windows(res, rng, n):
     """Targets whose range is taken unscaled (MultiSynth.transpose ...) behind a window WIDER than their span, in a process that has
     also seen loads fail: every send either is refused or leaves the target inside its range."""
@@ -905,6 +984,7 @@ def run_shard(spec_, res):
         part_loaded_twins(res, rng, spec_["tuples"] * 6)
         part_other_writers(res, rng, spec_["tuples"] * 4)
         part_inside_metamodule(res, rng, spec_["tuples"] * 3)
+        part_chains(res, rng, spec_["tuples"] * 4)
         part_wide_windows(res, rng, spec_["tuples"] * 3)
     else:
         part_pure(res, rng, spec_["tuples"])
